@@ -15,7 +15,7 @@ Inductive proof over the outer loop of the real fornberg._fd_weights_all, cut me
 import math
 import numpy as np
 import z3
-from ndvc import solve, cut
+from ndvc import solve, cut, xcheck
 from ndvc.sym import R, real, lift, CTX, explore, NeedsConcrete
 from ndvc.arr import SymArr, asobj
 from ndvc.overlay import installed
@@ -29,7 +29,8 @@ TRUSTED = ['A1 float == real; A2 object arrays == float arrays',
            'z3 / cvc5 as deciders of polynomial identities (denominators cleared, node differences != 0)']
 ASSUMPTIONS = ['nodes pairwise distinct (property precondition); any order, any spacing, any x0']
 NOT_DECIDED = ['rounding scaled by the conditioning of the node set']
-BOUNDED = ['the loop index i must be concrete for numpy (np.arange): the step is checked for every i <= m-1 with m up to 14 '
+BOUNDED = ['integer-nodes: integer-typed node lists / arrays with fractional x0 compared with float nodes on concrete cases (executed with the real numpy, not proved)',
+           'the loop index i must be concrete for numpy (np.arange): the step is checked for every i <= m-1 with m up to 14 '
            '(the property\'s range); the state is havoc\'d, so each step is independent of how many iterations precede']
 QUANTIFIED = 'all nodes x_v, x0, and all old weights W[v,k] of the invariant: universally quantified reals'
 
@@ -55,6 +56,7 @@ def groups(tier):
     out.append(('base+exit', ('base',)))
     out.append(('wrappers', ('wrappers',)))
     out.append(('direct', ('direct',)))
+    out.append(('integer-nodes', ('intnodes',)))
     return out
 
 
@@ -235,16 +237,54 @@ def run_direct():
                         mom = sum((lift(W[k, v]) * (xs[v] - x0) ** d for v in range(m)), R(0))
                         solve.ident('m=%d,n=%d:row%d-moment%d' % (m, n, k, d), mom.t,
                                     z3.RealVal(math.factorial(k) if d == k else 0), dens)
+        # results are values, not views of shared storage: a table held by the caller is not changed by later calls
+        for m, n in [(3, 1), (4, 2)]:
+            CTX.reset()
+            xs = SymArr([real('x%d' % k) for k in range(m)]); ys = SymArr([real('y%d' % k) for k in range(m)])
+            x0 = real('xe')
+            W1 = fb.fd_weights_all(xs, x0, n)
+            r1 = fb.fd_weights(xs, x0, n)
+            held = [lift(v).t for v in asobj(W1).ravel()]; held_r = [lift(v).t for v in asobj(r1).ravel()]
+            W2 = fb.fd_weights_all(ys, x0, n)
+            r2 = fb.fd_weights(ys, x0, n)
+            solve.fact('m=%d,n=%d:a-held-table-is-unchanged-by-a-later-call-with-other-nodes' % (m, n),
+                       all(a.eq(lift(b).t) for a, b in zip(held, asobj(W1).ravel())) and all(a.eq(lift(b).t) for a, b in zip(held_r, asobj(r1).ravel())) and
+                       not np.shares_memory(np.asarray(W1), np.asarray(W2)) and not np.shares_memory(np.asarray(r1), np.asarray(r2)))
+        # engine cross-check: the recursion on floats with the real numpy (larger tables than the identities above)
+        from fractions import Fraction as Fr
+        for m, n in [(2, 1), (3, 2), (5, 3), (6, 2), (7, 4)]:
+            CTX.reset()
+            xs = SymArr([real('x%d' % k) for k in range(m)])
+            x0 = real('xe')
+            W = fb.fd_weights_all(xs, x0, n)
+            nodes = [((5 * k * k + 3 * k) % 17 - 8) / 4.0 for k in range(m)]
+            asg = {'x%d' % k: Fr(nodes[k]) for k in range(m)}; asg['xe'] = Fr(3, 8)
+            xcheck.defer('m=%d,n=%d:engine==CPython(fd_weights_all)' % (m, n), W, asg, (lambda nodes=nodes, n=n: fb.fd_weights_all(np.array(nodes), 0.375, n)),
+                         rtol=1e-9, atol=1e-10)
+    xcheck.flush()
     return dict()
 
 
+def run_intnodes():
+    from ndvc.concrete import fd_weights_integer_cases
+    cnt, bad = fd_weights_integer_cases(mods()['fb'])
+    solve.fact('integer-typed-nodes-give-the-weights-of-the-same-nodes-as-floats[%d cases]' % cnt, not bad, kind='bounded', note=str(bad[:2])[:300])
+    return {}
+
+
 def run_group(args):
+    if args[0] == 'intnodes':
+        return run_intnodes()
     if args[0] == 'step':
         return run_step(args[1], args[2])
     return {'base': run_base, 'wrappers': run_wrappers, 'direct': run_direct}[args[0]]()
 
 
 def replay_case(ob):
+    if ob['name'].startswith('integer-nodes/'):
+        return dict(kind='C15.intnodes')
+    if 'held-table' in ob['name']:
+        return dict(kind='C15.held')
     import re
     mm = re.search(r'm=(\d+)', ob['name'])
     nn = re.search(r'n=(\d+)', ob['name'])
